@@ -120,10 +120,10 @@ class Sim:
         self.log.reset_budget()
 
     # ---- steps -----------------------------------------------------------------------------------
-    def load(self, rec: refdc.RootKeyRec, explicit_params=True):
+    def load(self, rec: refdc.RootKeyRec, explicit_params=True, empty_secret_parameters=False):
         kw = dict(key=rec.key, root_key_id=rec.id, version=rec.version, kdf_algorithm="SP800_108_CTR_HMAC",
                   kdf_parameters=rec.kdf_parameters if explicit_params else None, secret_algorithm=rec.secret_algorithm,
-                  secret_parameters=(rec.secret_parameters or None) if explicit_params else None,
+                  secret_parameters=b"" if empty_secret_parameters else ((rec.secret_parameters or None) if explicit_params else None),
                   private_key_length=rec.private_key_length, public_key_length=rec.public_key_length)
         self.cache.load_key(**kw)
         self.steps.append((f"load {hx(rec.id.bytes_le)} {hx(rec.key)} {rec.version} {hx(u16('SP800_108_CTR_HMAC'))} {opt(kw['kdf_parameters'])} "
